@@ -1080,7 +1080,8 @@ pub fn selftest(e: &dyn DynEngine, seed: u64, n: u64) -> i32 {
     }
     let va: BTreeSet<String> = a.violations.iter().map(|v| format!("{}|{}|{}", v.label, v.violation.clause, v.violation.site)).collect();
     let vb: BTreeSet<String> = b.violations.iter().map(|v| format!("{}|{}|{}", v.label, v.violation.clause, v.violation.site)).collect();
-    if va != vb {
+    // the per-batch violation list is capped; a comparison is only meaningful below the cap
+    if va != vb && a.violations.len() < 2000 && b.violations.len() < 2000 {
         eprintln!("selftest {prop}: violation sets differ between processes");
         diffs += 1;
     }
